@@ -201,7 +201,9 @@ WRAP:
 	for 1<<uint(t.Minute())&s.Minute == 0 {
 		if !added {
 			added = true
-			t = t.Truncate(time.Minute)
+			// Truncate on the wall clock: Time.Truncate works on absolute time, which differs when
+			// the UTC offset is not a whole number of minutes (local mean time)
+			t = time.Date(t.Year(), t.Month(), t.Day(), t.Hour(), t.Minute(), 0, 0, loc)
 		}
 		t = t.Add(1 * time.Minute)
 
